@@ -240,6 +240,14 @@ Theorem replace_has_one_caller :
 Proof. exact eq_refl. Qed.
 Print Assumptions replace_has_one_caller.
 
+(** ConfirmBatch stores the confirmation AS SUBMITTED; the model's [verify (checkpoint b) sg a] is about that whole field.
+    In the source the field is checked as a whole: EthAddressFromSignature has a length guard and passes the very slice
+    it was given to go-ethereum's SigToPub, which accepts 65 bytes only (no copy into a 65-byte buffer, no sub-slice), or
+    the guard itself demands exactly 65 bytes. *)
+Theorem confirmation_signature_checked_as_stored : Gen.C06.signature_checked_whole = true.
+Proof. exact eq_refl. Qed.
+Print Assumptions confirmation_signature_checked_as_stored.
+
 (** valset.GetSigningKey (the model's [lookup_key]: chain and named address of one of the validator's accounts) has a
     single key-returning exit and it has compared chain type, chain reference AND address with the arguments: there is
     no exit that hands out the key of an account registered under another chain reference or another address. *)
